@@ -21,6 +21,7 @@ func (e *FnEnc) loopFrame(li *loopInfo, pre *State, assume bool) {
 	if e.modAllowed == nil {
 		return // modifies *
 	}
+	e.allocClosureAxioms()
 	alloc0 := quoteSym("$alloc")
 	for _, k := range sortedKeys(li.mods) {
 		if k == "$alloc" || strings.HasPrefix(k, "M/") {
